@@ -12,7 +12,7 @@ evaluates (`cauchyLogpdf`/`cauchyGrad`, …) and the generic vector-level assemb
 
 Scalar components use the environment `env4 x p1 p2 p3` (`var 0 = x`, `var k = pk`).
 -/
-open Finset
+open Finset Filter Topology
 
 namespace CuqiVerif.C03
 open CuqiVerif RExpr
@@ -171,6 +171,52 @@ theorem cauchy_vector_grad (n : ℕ) (x l s : ℕ → ℝ) (hs : ∀ j, 0 < s j)
       (eval (env4 (x i) (l i) (s i) 0) (cauchyGrad (var 0) (var 1) (var 2))) (x i) :=
   iid_partial_deriv n (fun j y => eval (env4 y (l j) (s j) 0) (cauchyLogpdf (var 0) (var 1) (var 2)))
     x i hi _ (cauchy_grad_eq_deriv (x i) (l i) (s i) (hs i))
+
+
+/-! ### the other independent families in dimension `n` (per-component parameters) -/
+
+theorem beta_vector_grad (n : ℕ) (x a b : ℕ → ℝ) (hx : ∀ j, 0 < x j ∧ x j < 1) (ha : ∀ j, 0 < a j)
+    (hb : ∀ j, 0 < b j) (i : ℕ) (hi : i < n) :
+    HasDerivAt (fun t => ∑ j ∈ range n,
+        eval (env4 (Function.update x i t j) (a j) (b j) 0) (betaLogpdf (var 0) (var 1) (var 2)))
+      (eval (env4 (x i) (a i) (b i) 0) (betaGrad (var 0) (var 1) (var 2))) (x i) :=
+  iid_partial_deriv n (fun j y => eval (env4 y (a j) (b j) 0) (betaLogpdf (var 0) (var 1) (var 2)))
+    x i hi _ (beta_grad_eq_deriv (x i) (a i) (b i) (hx i).1 (hx i).2 (ha i) (hb i))
+
+theorem invGamma_vector_grad (n : ℕ) (x a loc sc : ℕ → ℝ) (hx : ∀ j, loc j < x j) (ha : ∀ j, 0 < a j)
+    (hsc : ∀ j, 0 < sc j) (i : ℕ) (hi : i < n) :
+    HasDerivAt (fun t => ∑ j ∈ range n,
+        eval (env4 (Function.update x i t j) (a j) (loc j) (sc j)) (invGammaLogpdf (var 0) (var 1) (var 2) (var 3)))
+      (eval (env4 (x i) (a i) (loc i) (sc i)) (invGammaGrad (var 0) (var 1) (var 2) (var 3))) (x i) :=
+  iid_partial_deriv n
+    (fun j y => eval (env4 y (a j) (loc j) (sc j)) (invGammaLogpdf (var 0) (var 1) (var 2) (var 3)))
+    x i hi _ (invGamma_grad_eq_deriv (x i) (a i) (loc i) (sc i) (hx i) (ha i) (hsc i))
+
+theorem smoothedLaplace_vector_grad (n : ℕ) (x l s : ℕ → ℝ) (β : ℝ) (hs : ∀ j, 0 < s j) (hβ : 0 < β)
+    (i : ℕ) (hi : i < n) :
+    HasDerivAt (fun t => ∑ j ∈ range n,
+        eval (env4 (Function.update x i t j) (l j) (s j) β) (slLogpdf (var 0) (var 1) (var 2) (var 3)))
+      (eval (env4 (x i) (l i) (s i) β) (slGrad (var 0) (var 1) (var 2) (var 3))) (x i) :=
+  iid_partial_deriv n (fun j y => eval (env4 y (l j) (s j) β) (slLogpdf (var 0) (var 1) (var 2) (var 3)))
+    x i hi _ (smoothedLaplace_grad_eq_deriv (x i) (l i) (s i) β (hs i) hβ)
+
+theorem lognormal_diag_vector_grad (n : ℕ) (x m v : ℕ → ℝ) (hx : ∀ j, 0 < x j) (hv : ∀ j, 0 < v j)
+    (i : ℕ) (hi : i < n) :
+    HasDerivAt (fun t => ∑ j ∈ range n,
+        eval (env4 (Function.update x i t j) (m j) (v j) 0) (lognLogpdf (var 0) (var 1) (var 2)))
+      (eval (env4 (x i) (m i) (v i) 0) (lognGrad (var 0) (var 1) (var 2))) (x i) :=
+  iid_partial_deriv n (fun j y => eval (env4 y (m j) (v j) 0) (lognLogpdf (var 0) (var 1) (var 2)))
+    x i hi _ (lognormal_diag_grad_eq_deriv (x i) (m i) (v i) (hx i) (hv i))
+
+/-- **Uniform**: inside the open box the log-density is the constant `c`, so the zero vector
+    `Uniform.gradient` returns is its derivative (the box is a neighbourhood of the point). -/
+theorem uniform_grad_zero (lo hi c : ℝ) (x : ℝ) (hlo : lo < x) (hhi : x < hi) :
+    HasDerivAt (fun t => if lo ≤ t ∧ t ≤ hi then c else 0) 0 x := by
+  have hc : HasDerivAt (fun _ : ℝ => c) 0 x := hasDerivAt_const x c
+  refine hc.congr_of_eventuallyEq ?_
+  have : Set.Ioo lo hi ∈ 𝓝 x := Ioo_mem_nhds hlo hhi
+  filter_upwards [this] with t ht
+  simp [le_of_lt ht.1, le_of_lt ht.2]
 
 /-! ## 3. Gaussian, GMRF: quadratic forms -/
 
@@ -348,5 +394,137 @@ theorem sum_rule (fs : List (ℝ → ℝ)) (gs : List (ℕ → ℝ)) (i : ℕ) (
       simp only [List.foldl_cons]
       exact ih (fun t => f0 t + _) _ (h0.add hfg)
   simpa [sumGrad] using key (fun _ => 0) 0 (hasDerivAt_const t0 (0:ℝ))
+
+/-! ### Lognormal with a dense covariance -/
+
+/-- **Lognormal, dense covariance, every dimension.** -/
+theorem lognormal_dense_grad_eq_deriv (n : ℕ) (P : ℕ → ℕ → ℝ) (hP : ∀ a b, P a b = P b a) (x μ : ℕ → ℝ)
+    (hx : ∀ j, 0 < x j) (i : ℕ) (hi : i < n) :
+    HasDerivAt (fun t => -(gaussQuad n P (fun j => Real.log (Function.update x i t j)) μ) / 2
+        - ∑ j ∈ range n, Real.log (Function.update x i t j))
+      (lognDenseGrad n P x (fun j => Real.log (x j)) μ i) (x i) := by
+  unfold lognDenseGrad
+  have hxi : x i ≠ 0 := ne_of_gt (hx i)
+  -- the Gaussian part is the coordinate line of the quadratic, re-parametrised by `log`
+  have hline := gauss_grad_eq_deriv n P hP (fun j => Real.log (x j)) μ i hi
+  have hlog : HasDerivAt Real.log (x i)⁻¹ (x i) := Real.hasDerivAt_log hxi
+  have hcomp := HasDerivAt.comp (x i) (h₂ := fun s => -(gaussQuad n P (Function.update (fun j => Real.log (x j)) i s) μ) / 2)
+    (h := Real.log) hline hlog
+  have e : (fun t => -(gaussQuad n P (fun j => Real.log (Function.update x i t j)) μ) / 2)
+      = (fun s => -(gaussQuad n P (Function.update (fun j => Real.log (x j)) i s) μ) / 2) ∘ Real.log := by
+    funext t
+    simp only [Function.comp]
+    congr 3
+    funext j
+    by_cases h : j = i
+    · subst h; simp
+    · simp [Function.update_of_ne h]
+  have hsum := iid_partial_deriv n (fun _ y => Real.log y) x i hi (x i)⁻¹ hlog
+  rw [← e] at hcomp
+  have := hcomp.fun_sub hsum
+  refine this.congr_deriv ?_
+  field_simp
+  ring
+
+/-! ## 6. the finite-difference option -/
+
+lemma upd_eq_update {α : Type} (x : ℕ → α) (i : ℕ) (v : α) : upd x i v = Function.update x i v := by
+  funext j
+  by_cases h : j = i <;> simp [upd, h]
+
+/-- **Finite-difference option converges to the derivative of the same log-density.** -/
+theorem fd_tendsto (f : (ℕ → ℝ) → ℝ) (x : ℕ → ℝ) (i : ℕ) (g : ℝ)
+    (h : HasDerivAt (fun t => f (Function.update x i t)) g (x i)) :
+    Tendsto (fun ε => fdGrad f x ε i) (𝓝[≠] 0) (𝓝 g) := by
+  have := h.tendsto_slope_zero
+  refine this.congr ?_
+  intro ε
+  simp [fdGrad, upd_eq_update, div_eq_inv_mul]
+
+theorem fd_quadratic_exact {K : Type} [Field K] [NeZero (2:K)] (n : ℕ) (P : ℕ → ℕ → K) (hP : ∀ a b, P a b = P b a)
+    (x μ : ℕ → K) (ε : K) (hε : ε ≠ 0) (i : ℕ) (hi : i < n) :
+    fdGrad (fun y => -(gaussQuad n P y μ) / 2) x ε i = gaussGrad n P x μ i - ε / 2 * P i i := by
+  have h2 : (2:K) ≠ 0 := NeZero.ne 2
+  have hz : ∀ a, upd x i (x i + ε) a - μ a = (x a - μ a) + ε * (if a = i then 1 else 0) := by
+    intro a
+    by_cases h : a = i
+    · subst h; simp [upd]; ring
+    · simp [upd, h]
+  have hq : gaussQuad n P (upd x i (x i + ε)) μ
+      = gaussQuad n P x μ + 2 * ε * (∑ b ∈ range n, P i b * (x b - μ b)) + ε ^ 2 * P i i := by
+    simp only [gaussQuad_eq, hz]
+    simp only [add_mul, mul_add, Finset.sum_add_distrib]
+    simp only [mul_ite, mul_one, mul_zero, ite_mul, zero_mul, Finset.sum_ite_eq', Finset.mem_range, hi, if_true]
+    have h3 : ∑ a ∈ range n, (x a - μ a) * (P a i * ε) = ε * ∑ b ∈ range n, P i b * (x b - μ b) := by
+      rw [Finset.mul_sum]
+      apply Finset.sum_congr rfl; intro a _; rw [hP a i]; ring
+    rw [h3]
+    ring
+  simp only [fdGrad, hq, gaussGrad_eq]
+  field_simp
+  ring
+
+
+/-! ## 7. the decision table (`gradStatus`, transcribed from the guards)
+
+Complete finite tables: every statement below is checked on all rows by `decide`. -/
+
+/-- **Outside the support the guarded families answer NaN** (identity geometry, plain parameters,
+    closed-form path): Cauchy (scale ≤ 0), Beta, InverseGamma, Lognormal, Uniform — every form/dim
+    flag; and the one-dimensional MHN. -/
+theorem grad_outside_support_nan : ∀ (fam : Family) (pf : PrecForm) (dg : Bool),
+    (fam = .cauchy ∨ fam = .beta ∨ fam = .invgamma ∨ fam = .lognormal ∨ fam = .uniform →
+      gradStatus fam .identity .no false false pf dg = .nan)
+    ∧ gradStatus .mhn .identity .no false false pf false = .nan := by
+  decide
+
+set_option synthInstance.maxSize 4096 in
+set_option synthInstance.maxHeartbeats 400000 in
+/-- **`value` only where the closed form is proved to be the derivative**: a closed-form vector is
+    returned only for families with a `*_grad_eq_deriv` theorem (or a user-supplied gradient),
+    never for a plain-callable (conditional) parameter, never outside a guarded support, never in
+    the Gaussian forms without a usable `prec`, never for a multi-dimensional MHN. -/
+theorem gradStatus_value_sound : ∀ (fam : Family) (g : Geom) (c : Cond) (fd sup : Bool) (pf : PrecForm)
+    (dg : Bool), gradStatus fam g c fd sup pf dg = .value →
+    (closedFormProved fam = true ∨ fam = .userWithGrad)
+      ∧ (c ≠ .callable ∨ fam = .userWithGrad)
+      ∧ ((fam = .cauchy ∨ fam = .beta ∨ fam = .invgamma ∨ fam = .lognormal ∨ fam = .uniform ∨ fam = .mhn) → sup = true)
+      ∧ (fam = .gaussian → pf ≠ .sqrtprec ∧ pf ≠ .precVector ∧ pf ≠ .precScalarDimN)
+      ∧ (fam = .mhn → dg = false) := by
+  decide +kernel
+
+set_option synthInstance.maxSize 4096 in
+set_option synthInstance.maxHeartbeats 400000 in
+/-- Where the "or is refused" clause is *not* met (the call neither returns a vector nor raises):
+    `None` only for a conditional Gaussian/GMRF/CMRF/Lognormal, a non-vector only for the 1-D `prec`
+    Gaussian and the multi-dimensional MHN.  (Recorded as known findings of the pinned code.) -/
+theorem gradStatus_not_refused_rows : ∀ (fam : Family) (g : Geom) (c : Cond) (fd sup : Bool)
+    (pf : PrecForm) (dg : Bool),
+    (gradStatus fam g c fd sup pf dg = .none →
+        c ≠ .no ∧ (fam = .gaussian ∨ fam = .gmrf ∨ fam = .cmrf ∨ fam = .lognormal))
+      ∧ (gradStatus fam g c fd sup pf dg = .notVector →
+        (fam = .gaussian ∧ pf = .precVector) ∨ (fam = .mhn ∧ dg = true)) := by
+  decide +kernel
+
+set_option synthInstance.maxSize 4096 in
+/-- **No analytic gradient ⇒ refusal, and FD replaces it**: families without `_gradient`
+    (Normal, Gamma, Laplace, LMRF, … and a user distribution without `gradient_func`) raise on every
+    row with FD off, and produce the finite-difference vector on every row with FD on. -/
+theorem no_closed_form_raises_or_fd : ∀ (g : Geom) (sup : Bool) (pf : PrecForm) (dg : Bool),
+    gradStatus .other g .no false sup pf dg = .raises ∧ gradStatus .userNoGrad g .no false sup pf dg = .raises
+      ∧ gradStatus .other g .no true sup pf dg = .valueFD ∧ gradStatus .userNoGrad g .no true sup pf dg = .valueFD := by
+  decide
+
+/-- likelihood gradient: a closed-form value only if every link of the chain rule is available -/
+theorem likStatus_value_sound : ∀ (hasGrad : Bool) (dom : Geom) (rangeId precOk fd : Bool),
+    likStatus hasGrad dom rangeId precOk fd = .value →
+    hasGrad = true ∧ dom ≠ .nonIdNoGrad ∧ rangeId = true ∧ precOk = true ∧ fd = false := by
+  decide
+
+/-- posterior: a value (closed or FD) needs both parts to produce one and a usable geometry -/
+theorem postStatus_value_sound : ∀ (lik prior : Status) (dom : Geom),
+    (postStatus lik prior dom = .value ∨ postStatus lik prior dom = .valueFD) →
+    dom ≠ .nonIdNoGrad ∧ (lik = .value ∨ lik = .valueFD) ∧ (prior = .value ∨ prior = .valueFD) := by
+  decide
 
 end CuqiVerif.C03
